@@ -285,7 +285,7 @@ class RV:
         cases = []
         for _ in range(n):
             r = rng.random()
-            size = rng.choice([1, 2, 4, 8, 8])
+            size = rng.choice([1, 2, 4, 8, 8, 16])
             if r < 0.4:
                 a = gen_interval(rng, size)
                 b = gen_interval(rng, size) if rng.random() < 0.8 else dict(a)
@@ -491,7 +491,20 @@ class RV:
                     one("offset of %s" % i, off, None, r["rel"][i], rtop)
         else:
             if a["top"] != b["top"]:
-                return  # one side unknown: the other side is returned as the best approximation (documented)
+                # one side may be anything: every value of the OTHER side is in the intersection and must be kept
+                other = b if a["top"] else a
+                if r is None:
+                    if other["abs"] is not None or other["rel"] or other["top"]:
+                        self.report("C04 %s: reported unsatisfiable although one side is unknown (Top) and the other non-empty" % name, "feasible value exists", case, out, {})
+                    return
+                if other["abs"] is not None:
+                    one("absolute part (other side unknown)", other["abs"], None, r["abs"], rtop)
+                for i, off in other["rel"].items():
+                    if i not in r["rel"] and not rtop:
+                        self.report("C04 %s: a pointer target of the known side was removed although the other side is unknown" % name, "pointer target %s lost" % i, case, out, {})
+                    elif i in r["rel"]:
+                        one("offset of %s (other side unknown)" % i, off, None, r["rel"][i], rtop)
+                return
             if a["abs"] is not None and b["abs"] is not None:
                 one("absolute part", a["abs"], b["abs"], (r["abs"] if r else None), rtop)
             for i in a["rel"]:
